@@ -7,6 +7,10 @@ import glob, json, os, shutil, subprocess, sys, tempfile
 from concurrent.futures import ThreadPoolExecutor
 
 PROPS = [f"C{i:02d}" for i in range(1, 21)]
+# the checkout whose checks are run (a development worktree measures itself against /verif/seeded without recording anything)
+ROOT = os.path.dirname(os.path.dirname(os.path.abspath(__file__)))
+RECORD = ROOT == "/verif"
+JOBS = int(os.environ.get("SEED_MATRIX_JOBS", "12"))
 
 
 def one(sd):
@@ -20,7 +24,7 @@ def one(sd):
             return name, {"error": "patch does not apply on the current tree: " + (r.stdout + r.stderr)[-200:]}
         fired = {}
         for p in PROPS:
-            r = subprocess.run(["/verif/check", p, "--repo", d], cwd="/verif", capture_output=True, text=True)
+            r = subprocess.run([os.path.join(ROOT, "check"), p, "--repo", d], cwd=ROOT, capture_output=True, text=True)
             out = r.stdout + r.stderr
             rules = sorted({l.split("rule ")[1].split(":")[0] for l in out.splitlines() if l.strip().startswith("rule ")})
             if r.returncode != 0:
@@ -32,9 +36,9 @@ def one(sd):
 
 seeds = sorted(x for x in glob.glob("/verif/seeded/C*-*") if os.path.isdir(x))
 benign = sorted(x for x in glob.glob("/verif/seeded/benign/C*-*") if os.path.isdir(x))
-with ThreadPoolExecutor(max_workers=8) as ex:
+with ThreadPoolExecutor(max_workers=JOBS) as ex:
     res = dict(ex.map(one, seeds))
-with ThreadPoolExecutor(max_workers=8) as ex:
+with ThreadPoolExecutor(max_workers=JOBS) as ex:
     bres = dict(ex.map(one, benign))
 noisy = []
 for name, r in sorted(bres.items()):
@@ -44,17 +48,18 @@ for name, r in sorted(bres.items()):
     print("benign", name, "SILENT" if not r.get("fired") and "error" not in r else f"NOISY {r}")
 res_all = dict(res)
 res_all.update({"benign/" + k: v for k, v in bres.items()})
-json.dump(res_all, open("/verif/seeded/MATRIX.json", "w"), indent=1, sort_keys=True)
+json.dump(res_all, open("/verif/seeded/MATRIX.json" if RECORD else "/tmp/matrix_dev.json", "w"), indent=1, sort_keys=True)
 missed = []
 for name, r in sorted(res.items()):
     mp = f"/verif/seeded/{name}/meta.json"
     if "error" in r:
         print(name, r["error"])
         continue
-    meta = json.load(open(mp))
-    meta["checks_that_fire"] = r["fired"]
-    meta["detected_by_own_property"] = r["own"]
-    json.dump(meta, open(mp, "w"), indent=1)
+    if RECORD:
+        meta = json.load(open(mp))
+        meta["checks_that_fire"] = r["fired"]
+        meta["detected_by_own_property"] = r["own"]
+        json.dump(meta, open(mp, "w"), indent=1)
     others = {k: v["rules"] for k, v in r["fired"].items() if k != r["property"]}
     print(name, "OWN" if r["own"] else "MISSED-BY-OWN", r["fired"].get(r["property"], {}).get("rules"), "also:", others)
     if not r["own"]:
